@@ -16,7 +16,7 @@ def _uninterpreted(t) -> set:
     out = set()
     for s in T.find(t, lambda s: s[0] == "call" and isinstance(s[1], str)):
         n = s[1]
-        if n.startswith(("np.", "pd.", "numpy.", "pandas.", "math.", "builtins.")) or n in ("map", "filter"):
+        if n.startswith(("np.", "pd.", "numpy.", "pandas.", "math.", "builtins.", "tuple.", "list.", "dict.", "set.", "frozenset.", "str.", "PyTuple.")) or n in ("map", "filter"):          # (incl. container methods the evaluator fell back on)
             out.add(n)
     return out
 
@@ -37,7 +37,7 @@ def check_term(chk, rule: str, inst: str, where: str, found: Any, accepted: List
     if not ok and T.renorm(_nocoldata(found)) in [T.renorm(_nocoldata(a)) for a in accepted]:
         ok = True
     if not ok and T.strip_casts(found) in [T.strip_casts(a) for a in accepted]:
-        ok = True          # law: a cast to a full-width numeric type (int64 / float64) keeps every value; a narrowing cast stays a difference
+        ok = True          # law: a cast to float64, or to int64 of an integer-valued term (ceil / floor results), keeps every value; a narrowing or truncating cast stays a difference
     if not ok:
         extra = _uninterpreted(found) - set().union(*[_uninterpreted(a) for a in accepted]) if accepted else _uninterpreted(found)
         if extra:   # the slot is computed through a library function the evaluator has no model for: not understood, not a violation
